@@ -11,6 +11,7 @@ import (
 
 	corev1 "k8s.io/api/core/v1"
 	metav1 "k8s.io/apimachinery/pkg/apis/meta/v1"
+	"k8s.io/apimachinery/pkg/types"
 	"k8s.io/apimachinery/pkg/util/validation"
 	"k8s.io/client-go/tools/cache"
 
@@ -18,7 +19,10 @@ import (
 
 	v1 "sigs.k8s.io/node-ipam-controller/pkg/apis/clustercidr/v1"
 	"sigs.k8s.io/node-ipam-controller/pkg/controller/ipam"
+	cidrset "sigs.k8s.io/node-ipam-controller/pkg/controller/ipam/multicidrset"
 )
+
+var uidCounter int
 
 var fixedTime = metav1.NewTime(time.Unix(1700000000, 0))
 
@@ -122,11 +126,13 @@ func encField(s string) string {
 	}
 	_, n, err := parseCIDR(s)
 	if err != nil {
-		return "M"
+		return "M@" + s
 	}
 	c, ok := canon.FromIPNet(n)
-	if !ok {
-		return "M"
+	if !ok || n.String() != s {
+		// parses, but not to a plain network in canonical form (IPv4-mapped, unmasked, upper case ...): outside the
+		// modelled input domain; only the robustness stream uses such strings and does not compare them with the model
+		return "X@" + s
 	}
 	return c.Tok() + "@" + n.String()
 }
@@ -137,6 +143,8 @@ func decField(f string) string {
 		return ""
 	case f == "M":
 		return "not-a-cidr"
+	case strings.HasPrefix(f, "M@") || strings.HasPrefix(f, "X@"):
+		return f[2:]
 	}
 	at := strings.Index(f, "@")
 	c, _ := tokToCidr(f[:at])
@@ -165,6 +173,10 @@ func parseCidrToks(s string) []string {
 	}
 	var out []string
 	for _, t := range strings.Split(s, ",") {
+		if strings.HasPrefix(t, "?") {
+			out = append(out, t[1:])
+			continue
+		}
 		c, ok := tokToCidr(t)
 		if !ok {
 			out = append(out, t)
@@ -260,7 +272,8 @@ func (w *world) exec(line string) stepResult {
 		}
 	case "nodeAdd":
 		if _, ok := w.nodes[f[1]]; !ok {
-			n := &corev1.Node{ObjectMeta: metav1.ObjectMeta{Name: f[1], Labels: parseLabelsTok(f[2]), ResourceVersion: "1"}}
+			uidCounter++
+			n := &corev1.Node{ObjectMeta: metav1.ObjectMeta{Name: f[1], Labels: parseLabelsTok(f[2]), ResourceVersion: "1", UID: types.UID(fmt.Sprintf("u%d", uidCounter))}}
 			cs := parseCidrToks(f[3])
 			if len(cs) > 0 {
 				n.Spec.PodCIDR, n.Spec.PodCIDRs = cs[0], cs
@@ -306,6 +319,19 @@ func (w *world) exec(line string) stepResult {
 			g, _ := strconv.Atoi(f[2])
 			c.Generation = int64(g)
 			bumpRV(&c.ObjectMeta)
+		}
+	case "ccAddFin":
+		if c, ok := w.ccs[f[1]]; ok && !contains(c.Finalizers, f[2]) {
+			c.Finalizers = append(c.Finalizers, f[2])
+			bumpRV(&c.ObjectMeta)
+		}
+	case "nodeSetCIDRs":
+		if n, ok := w.nodes[f[1]]; ok {
+			cs := parseCidrToks(f[2])
+			if len(n.Spec.PodCIDRs) == 0 && len(cs) > 0 {
+				n.Spec.PodCIDR, n.Spec.PodCIDRs = cs[0], cs
+				bumpRV(&n.ObjectMeta)
+			}
 		}
 	case "deliverNode":
 		if w.h == nil {
@@ -403,6 +429,8 @@ func (w *world) exec(line string) stepResult {
 		} else if !contains(w.ccQ.forgot, f[1]) && pan == "" && !hung {
 			res = "dropped"
 		}
+	case "mark":
+		return stepResult{obs: line}
 	default:
 		return stepResult{obs: "bad-op"}
 	}
@@ -434,7 +462,7 @@ type rangeChoice struct {
 var rangePalette = []rangeChoice{
 	{"10.0.0.0/24", "", 4}, {"10.0.0.0/24", "", 6}, {"10.0.0.0/26", "", 4}, {"10.0.0.64/26", "", 4}, {"10.0.1.0/24", "", 5},
 	{"10.0.0.0/23", "", 8}, {"10.0.0.0/28", "", 4}, {"10.0.0.0/27", "", 4}, {"10.0.0.16/28", "", 4},
-	{"", "fd00::/120", 4}, {"", "fd00::/124", 4}, {"", "fd00::/122", 5}, {"", "fd00:0:0:1::/63", 65},
+	{"", "fd00::/120", 4}, {"", "fd00::/124", 4}, {"", "fd00::/122", 5}, {"", "fd00:0:0:2::/63", 65},
 	{"10.0.0.0/24", "fd00::/120", 4}, {"10.0.0.0/26", "fd00::/124", 4}, {"10.0.2.0/27", "fd00::/122", 4}, {"10.0.0.0/27", "fd00::40/122", 5},
 	{"10.0.3.0/28", "fd00:1::/121", 4},
 }
@@ -500,13 +528,18 @@ func ccLine(p ccPlan) string {
 
 // presetFor returns pod CIDRs a pre-existing node may hold: whole blocks (or multiples) of some planned
 // ClusterCIDR, such that every planned range meeting them sees whole multiples of its own block; or a CIDR outside all.
-func (g *gen) presetFor() string {
+func (g *gen) presetFor(labels string) string {
 	rng := g.rng
+	lm := parseLabelsTok(labels)
 	if rng.Intn(6) == 0 {
 		return "4:" + big.NewInt(0xac100000+int64(rng.Intn(16))*16).Text(16) + "/28" // 172.16.0.x outside everything
 	}
 	for try := 0; try < 20; try++ {
 		p := g.plans[rng.Intn(len(g.plans))]
+		// mostly a ClusterCIDR that selects the node (otherwise the node's CIDR is never recorded)
+		if rng.Intn(8) > 0 && !planSelects(p, lm) {
+			continue
+		}
 		var toks []string
 		okAll := true
 		for _, s := range []string{p.v4, p.v6} {
@@ -530,10 +563,93 @@ func (g *gen) presetFor() string {
 			toks = append(toks, c.Tok())
 		}
 		if okAll && len(toks) > 0 {
+			// mostly not what another node already holds
+			clash := false
+			for _, n := range g.w.nodes {
+				for _, have := range n.Spec.PodCIDRs {
+					for _, t := range toks {
+						c, _ := tokToCidr(t)
+						if _, hn, err := parseCIDR(have); err == nil && (hn.Contains(c.IPNet().IP) || c.IPNet().Contains(hn.IP)) {
+							clash = true
+						}
+					}
+				}
+			}
+			if clash && rng.Intn(10) > 0 {
+				continue
+			}
 			return strings.Join(toks, ",")
 		}
 	}
 	return "-"
+}
+
+// firstBlocks proposes what the controller itself would hand out next from some planned ClusterCIDR
+// (block 0 or 1 per family), in whole or only the IPv4 part.
+func (g *gen) firstBlocks() string {
+	p := g.plans[g.rng.Intn(len(g.plans))]
+	var toks []string
+	i := int64(g.rng.Intn(2))
+	// where the rotating search of that ClusterCIDR stands now
+	cur4, cur6 := int64(-1), int64(-1)
+	if g.w.h != nil {
+		g.w.h.WithCIDRMap(func(m map[string][]*cidrset.ClusterCIDR) {
+			for _, l := range m {
+				for _, c := range l {
+					if c.Name == p.name {
+						if c.IPv4CIDRSet != nil {
+							_, cu, _, _ := c.IPv4CIDRSet.VerifState()
+							cur4 = int64(cu)
+						}
+						if c.IPv6CIDRSet != nil {
+							_, cu, _, _ := c.IPv6CIDRSet.VerifState()
+							cur6 = int64(cu)
+						}
+					}
+				}
+			}
+		})
+	}
+	for fi, s := range []string{p.v4, p.v6} {
+		if g.rng.Intn(4) > 0 {
+			if fi == 0 && cur4 >= 0 {
+				i = cur4
+			}
+			if fi == 1 && cur6 >= 0 {
+				i = cur6
+			}
+		}
+		if s == "" {
+			continue
+		}
+		_, n, _ := parseCIDR(s)
+		r, _ := canon.FromIPNet(n)
+		nn := r.W() - p.hb
+		if nn == r.Len && i > 0 {
+			i = 0
+		}
+		c := canon.Mk(r.Fam, new(big.Int).Add(r.Addr, new(big.Int).Mul(big.NewInt(i), pow2(r.W()-nn))), nn)
+		toks = append(toks, c.Tok())
+	}
+	if len(toks) == 2 && g.rng.Intn(2) == 0 {
+		toks = toks[:1]
+	}
+	if len(toks) == 0 {
+		return "-"
+	}
+	return strings.Join(toks, ",")
+}
+
+func planSelects(p ccPlan, labels map[string]string) bool {
+	if p.sel == nil {
+		return true
+	}
+	key, err := ipam.VerifNodeSelectorKey(&v1.ClusterCIDR{Spec: v1.ClusterCIDRSpec{NodeSelector: p.sel}})
+	if err != nil {
+		return false
+	}
+	ok, _, err := ipam.VerifMatchCIDRLabels(&corev1.Node{ObjectMeta: metav1.ObjectMeta{Labels: labels}}, key)
+	return err == nil && ok
 }
 
 func (g *gen) alignedEverywhere(c canon.Cidr) bool {
@@ -618,7 +734,7 @@ func (g *gen) stale(kind string) []string {
 		for n := range names {
 			cur, ok := w.nodes[n]
 			o, ex, _ := w.nodeInf.inf.indexer.GetByKey(n)
-			if ok != ex || (ok && nodeStr(cur) != nodeStr(o.(*corev1.Node))) {
+			if ok != ex || (ok && (nodeStr(cur) != nodeStr(o.(*corev1.Node)) || cur.UID != o.(*corev1.Node).UID || cur.ResourceVersion != o.(*corev1.Node).ResourceVersion)) {
 				out = append(out, n)
 			}
 		}
@@ -676,7 +792,7 @@ func (g *gen) bootLine(withSvc bool) string {
 }
 
 func (g *gen) randWsList() string {
-	if g.rng.Intn(6) != 0 {
+	if g.rng.Intn(4) != 0 {
 		return "-"
 	}
 	var p []string
@@ -697,27 +813,42 @@ func genHistory(o *Out, rng *rand.Rand, id int, length int, profile string) []st
 		if rng.Intn(3) > 0 {
 			g.do(ccLine(p))
 			created[p.name] = true
+			if rng.Intn(7) == 0 {
+				g.do(fmt.Sprintf("ccGen %s 2", p.name))
+			}
 		}
 	}
 	for _, n := range g.nodeNames()[:rng.Intn(4)] {
 		cs := "-"
+		ls := labelPalette[rng.Intn(len(labelPalette))]
 		if rng.Intn(2) == 0 {
-			cs = g.presetFor()
+			cs = g.presetFor(ls)
 		}
-		g.do(fmt.Sprintf("nodeAdd %s %s %s", n, labelPalette[rng.Intn(len(labelPalette))], cs))
+		g.do(fmt.Sprintf("nodeAdd %s %s %s", n, ls, cs))
 	}
 	g.do(g.bootLine(profile == "svc" || rng.Intn(8) == 0))
 	for k := 0; k < length && !g.dead; k++ {
 		w := g.w
 		x := rng.Intn(100)
+		if profile == "restart" && rng.Intn(8) == 0 {
+			x = 99
+		}
+		if profile == "restart" && len(g.lines) > 0 && (strings.Contains(g.lines[len(g.lines)-1], "lost") || strings.Contains(g.lines[len(g.lines)-1], "fail")) && rng.Intn(2) == 0 {
+			x = 99 // a crash right after (lost) or right before (fail) the write
+		}
+		if profile == "mal" && rng.Intn(6) == 0 {
+			g.malEvent()
+			continue
+		}
 		switch {
 		case x < 9: // node appears
 			n := g.nodeNames()[rng.Intn(6)]
 			cs := "-"
+			ls := labelPalette[rng.Intn(len(labelPalette))]
 			if rng.Intn(5) == 0 {
-				cs = g.presetFor()
+				cs = g.presetFor(ls)
 			}
-			g.do(fmt.Sprintf("nodeAdd %s %s %s", n, labelPalette[rng.Intn(len(labelPalette))], cs))
+			g.do(fmt.Sprintf("nodeAdd %s %s %s", n, ls, cs))
 		case x < 14:
 			if ks := sortedMapKeys(w.nodes); len(ks) > 0 {
 				g.do("nodeDel " + ks[rng.Intn(len(ks))])
@@ -738,8 +869,26 @@ func genHistory(o *Out, rng *rand.Rand, id int, length int, profile string) []st
 				g.do("ccDel " + ks[rng.Intn(len(ks))])
 			}
 		case x < 29:
-			if ks := sortedMapKeys(w.ccs); len(ks) > 0 && rng.Intn(3) == 0 {
-				g.do(fmt.Sprintf("ccGen %s %d", ks[rng.Intn(len(ks))], 2))
+			if ks := sortedMapKeys(w.ccs); len(ks) > 0 {
+				switch rng.Intn(3) {
+				case 0:
+					g.do(fmt.Sprintf("ccGen %s %d", ks[rng.Intn(len(ks))], 2))
+				case 1:
+					g.do(fmt.Sprintf("ccAddFin %s example.com/other", ks[rng.Intn(len(ks))]))
+				case 2:
+					// somebody else hands pod CIDRs to a node that has none
+					var free []string
+					for _, n := range sortedMapKeys(w.nodes) {
+						if len(w.nodes[n].Spec.PodCIDRs) == 0 {
+							free = append(free, n)
+						}
+					}
+					if len(free) > 0 {
+						if cs := g.firstBlocks(); cs != "-" {
+							g.do(fmt.Sprintf("nodeSetCIDRs %s %s", free[rng.Intn(len(free))], cs))
+						}
+					}
+				}
 			}
 		case x < 47:
 			if st := g.stale("node"); len(st) > 0 {
@@ -756,7 +905,15 @@ func genHistory(o *Out, rng *rand.Rand, id int, length int, profile string) []st
 		case x < 83:
 			if w.h != nil {
 				if ks := w.nodeQ.keys(); len(ks) > 0 {
-					g.do(fmt.Sprintf("procNode %s %d %s", ks[rng.Intn(len(ks))], b2i(rng.Intn(10) == 0), g.randWs(3)))
+					n := ks[rng.Intn(len(ks))]
+					refresh := rng.Intn(10) == 0
+					// a retry after a lost answer, or after somebody else wrote the node, usually meets a cache that catches up mid-item
+					if cur, ok := w.nodes[n]; ok && len(cur.Spec.PodCIDRs) > 0 {
+						if o, ex, _ := w.nodeInf.inf.indexer.GetByKey(n); ex && len(o.(*corev1.Node).Spec.PodCIDRs) == 0 {
+							refresh = rng.Intn(3) > 0
+						}
+					}
+					g.do(fmt.Sprintf("procNode %s %d %s", n, b2i(refresh), g.randWs(3)))
 				}
 			}
 		case x < 97:
@@ -773,7 +930,71 @@ func genHistory(o *Out, rng *rand.Rand, id int, length int, profile string) []st
 			g.do(g.bootLine(rng.Intn(6) == 0))
 		}
 	}
+	if profile == "drain" {
+		g.drain()
+	}
 	return g.lines
+}
+
+// drain: changes stop, writes succeed, everything pending is delivered and processed until nothing moves.
+func (g *gen) drain() {
+	if g.w.h == nil || g.dead {
+		return
+	}
+	sig := func() string { return g.w.apiStr() + g.w.snapshot() + g.w.viewStr() }
+	for round := 0; round < 60 && !g.dead; round++ {
+		before := sig()
+		for _, n := range g.stale("cc") {
+			g.do("deliverCC " + n)
+		}
+		for _, n := range g.stale("node") {
+			g.do("deliverNode " + n + " 0")
+		}
+		for _, k := range g.w.ccQ.keys() {
+			g.do("procCC " + k + " -")
+		}
+		for _, k := range g.w.nodeQ.keys() {
+			g.do("procNode " + k + " 0 -")
+		}
+		if sig() == before && len(g.stale("cc")) == 0 && len(g.stale("node")) == 0 {
+			g.do("mark drained")
+			return
+		}
+	}
+	g.do("mark undrained")
+}
+
+var malRanges4 = []string{"garbage", "10.0.0.0", "10.0.0.0/33", "300.0.0.0/8", "fd00::/64", "fd00::/120", "::ffff:10.0.0.0/104", "10.0.0.9/24", "10.0.0.0/24", "10.0.0.0/28", "0.0.0.0/0"}
+var malRanges6 = []string{"nonsense", "fd00::", "fd00::/129", "10.0.0.0/8", "10.0.0.0/24", "::ffff:10.0.0.0/104", "FD00::/120", "fd00::5/120", "fd00::/120", "fd00::/100", "::/0"}
+var malHostBits = []int{-2147483648, -5, -1, 0, 1, 3, 4, 8, 9, 16, 17, 24, 28, 29, 32, 33, 64, 100, 104, 120, 127, 128, 129, 2147483647}
+var malNodeCIDRs = []string{"?garbage", "?10.0.0.0", "?10.0.0.0/33", "?fd00::/129", "4:ac100000/28", "6:fe800000000000000000000000000000/64", "4:a000000/8", "6:fd000000000000000000000000000000/8", "4:a000005/32", "6:fd000000000000000000000000000001/128"}
+
+// malEvent injects hostile object content (C12).
+func (g *gen) malEvent() {
+	rng := g.rng
+	switch rng.Intn(5) {
+	case 0, 1: // ClusterCIDR with arbitrary strings / host bits / selector
+		name := []string{"x", "y", "z"}[rng.Intn(3)]
+		v4, v6 := "", ""
+		if rng.Intn(4) > 0 {
+			v4 = malRanges4[rng.Intn(len(malRanges4))]
+		}
+		if rng.Intn(3) > 0 {
+			v6 = malRanges6[rng.Intn(len(malRanges6))]
+		}
+		v4, v6 = strings.TrimSpace(v4), strings.TrimSpace(v6)
+		hb := malHostBits[rng.Intn(len(malHostBits))]
+		g.do(fmt.Sprintf("ccAdd %s %d %s %s %s", name, hb, encField(v4), encField(v6), encRawSel(selPalette[rng.Intn(len(selPalette))])))
+	case 2: // node with pod CIDRs nobody can make sense of, or of a family / range no ClusterCIDR has
+		n := g.nodeNames()[rng.Intn(6)]
+		g.do(fmt.Sprintf("nodeAdd %s %s %s", n, labelPalette[rng.Intn(len(labelPalette))], malNodeCIDRs[rng.Intn(len(malNodeCIDRs))]))
+	case 3: // tombstone delivery
+		if st := g.stale("node"); len(st) > 0 {
+			g.do(fmt.Sprintf("deliverNode %s 1", st[rng.Intn(len(st))]))
+		}
+	case 4: // restart with service ranges of either family
+		g.do(g.bootLine(true))
+	}
 }
 
 func b2i(b bool) int {
@@ -789,9 +1010,9 @@ func runHist(o *Out, rng *rand.Rand, thorough bool, replay string, profile strin
 		replayHist(o, replay)
 		return
 	}
-	n, length := 250, 50
+	n, length := 1200, 50
 	if thorough {
-		n, length = 4000, 70
+		n, length = 12000, 70
 	}
 	if v := os.Getenv("VERIF_HIST_N"); v != "" {
 		n, _ = strconv.Atoi(v)
